@@ -347,7 +347,7 @@ def gen_ws(ctx, n_streams, exhaustive_upto, n_exh):
         body = b"".join(frames)
         stream = hs + body
         n, h = len(stream), len(hs)
-        segs = [[], list(range(1, n))]
+        segs = [[], list(range(1, n)) if n <= 4000 else sorted(rng.sample(range(1, n), 3000))]
         if kind == "ok":
             segs.append([h] if 0 < h < n else [])
             fb = sorted(c for c in ws_frame_boundaries(frames, h) if 0 < c < n)
